@@ -843,3 +843,42 @@ func (p *Program) HelperClosure(owners map[*ssa.Function]bool) map[*ssa.Function
 	}
 	return out
 }
+
+// DerivesFromCallDeep: v's backward slice (through call arguments) contains a call of one of the named functions, also
+// when that call sits inside a function of the same package whose result flows into v (a helper a refactoring may
+// have extracted), up to depth levels.
+func DerivesFromCallDeep(v ssa.Value, depth int, names ...string) bool {
+	set := map[string]bool{}
+	for _, n := range names {
+		set[n] = true
+	}
+	var visit func(v ssa.Value, d int, pkg string) bool
+	visit = func(v ssa.Value, d int, pkg string) bool {
+		for x := range BackSlice(v, func(*ssa.Call) bool { return true }) {
+			c, ok := x.(*ssa.Call)
+			if !ok {
+				continue
+			}
+			if o := CalleeObj(&c.Call); o != nil && set[ObjName(o)] {
+				return true
+			}
+			if f := c.Call.StaticCallee(); f != nil && d < depth && len(f.Blocks) > 0 && FuncPkgPath(f) == pkg {
+				for _, ret := range Returns(f) {
+					for _, rv := range ret.Results {
+						if visit(rv, d+1, pkg) {
+							return true
+						}
+					}
+				}
+			}
+		}
+		return false
+	}
+	pkg := ""
+	if in, ok := v.(ssa.Instruction); ok && in.Parent() != nil {
+		pkg = FuncPkgPath(in.Parent())
+	} else if prm, ok := v.(*ssa.Parameter); ok && prm.Parent() != nil {
+		pkg = FuncPkgPath(prm.Parent())
+	}
+	return visit(v, 0, pkg)
+}
